@@ -29,6 +29,8 @@ func main() {
 		runC19(*seed, *count, *replay)
 	case "C03":
 		runC03(*seed, *count)
+	case "C07":
+		runC07(*seed, *count)
 	case "C14":
 		runC14(*seed, *count)
 	case "C17":
